@@ -147,9 +147,10 @@ def r2_bytes_untransformed(P, rep, ctx):
     nd, fp, tg = pffi.params[0], pffi.params[1], pffi.params[2]
     cds = pf.call_sites(f"{nd}.create_dataset(__t, data=__d)")
     dd = sorted({pf.x_at(i, b["__d"]) for i, c, b in cds})
-    rep.check(dd == [f"_h5_wrap_bytes({fp}.read_bytes())"], "C17.R2", pffi.qual, "payload = _h5_wrap_bytes(file_path.read_bytes()), nothing in between", pffi.loc(), construct=f"data = {dd}", message=f"the embedded payload is computed as {dd}: bytes are transformed before wrapping")
+    rep.check(len(dd) == 1 and dd[0] in (f"_h5_wrap_bytes({fp}.read_bytes())", f"_h5_wrap_bytes(Path({fp}).read_bytes())"), "C17.R2", pffi.qual, "payload = _h5_wrap_bytes(file_path.read_bytes()), nothing in between", pffi.loc(), construct=f"data = {dd}", message=f"the embedded payload is computed as {dd}: bytes are transformed before wrapping")
     allcd = [c for c in local_calls(pffi.node) if call_attr(c) == "create_dataset"]
-    ok = len(allcd) == 1 and bool(cds) and all(norm(b["__t"]) == tg for i, c, b in cds)
+    # (the target is the caller's target -- possibly defaulted -- whatever the local is called)
+    ok = len(allcd) == 1 and bool(cds) and all(norm(b["__t"]) == tg or any(isinstance(x, ast.Name) and x.id == tg for x in ast.walk(pf.xe_at(i, b["__t"]))) for i, c, b in cds)
     rep.check(ok, "C17.R2", pffi.qual, "the wrapped bytes are stored as the dataset at the target path", pffi.loc(), construct="create_dataset in pack_file", message="pack_file does not store `data` with node.create_dataset(target, data=data)")
     fpd = [norm(v) for k, v in local_defs(pffi).get(fp, []) if v is not None]
     rep.check(fpd in ([f"Path({fp})"], []), "C17.R2", pffi.qual, "the file read is the one the caller named", pffi.loc(), construct=f"file_path = {fpd}", message=f"file_path is rebound to {fpd}")
@@ -200,9 +201,11 @@ def r3_harvested_facts(P, rep, ctx):
     d_ = local_defs(pffi)
     att = [i for i, v, b in atts if pf.x_at(i, b["__r"]).startswith(f"{nd}.create_dataset(") or (isinstance(b["__r"], ast.Name) and any(v_ is not None and norm(v_).startswith(f"{nd}.create_dataset(") for k_, v_ in d_.get(b["__r"].id, [])))]
     rep.check(bool(cd) and bool(att) and pf.all_hit_before(att, nodes=cd) and pf.hit_before(g.exit, nodes=att), "C17.R3", pffi.qual, "metadata is attached to the new dataset on every successful path", pffi.loc(), construct="metadata attach after create_dataset", message="pack_file can return without attaching the file metadata (or attaches it before the dataset exists)")
-    notfm = pf.tests(f"not isinstance({md}, FileMeta)")
+    # the object that gets attached (the parameter, re-bound, or a fresh local holding its copy / the harvested default)
+    subj = sorted({v.id for i, v, b in atts if isinstance(v, ast.Name)} | {md})
+    notfm = pf.tests(*[f"not isinstance({x}, FileMeta)" for x in subj])
     ok = pf.refuses(notfm) and pf.all_hit_before(cd, nodes=pf.test_nodes(notfm))
     rep.check(ok, "C17.R3", pffi.qual, "metadata that is not file metadata is refused before anything is stored", pffi.loc(), construct="FileMeta refusal", message="pack_file does not refuse non-FileMeta metadata before creating the dataset")
     hv = pf.call_sites("harvest(FileMeta, __l)")
-    ok = len({norm(c) for i, c, b in hv}) == 1 and all(isinstance(pf.xe_at(i, b["__l"]), ast.List) and len(pf.xe_at(i, b["__l"]).elts) == 1 and MM.match(f"__h(filepath={fp})", pf.xe_at(i, b["__l"]).elts[0]) is not None for i, c, b in hv)
+    ok = len({norm(c) for i, c, b in hv}) == 1 and all(isinstance(pf.xe_at(i, b["__l"]), ast.List) and len(pf.xe_at(i, b["__l"]).elts) == 1 and (lambda m_: m_ is not None and norm(m_["__p"]) in (fp, f"Path({fp})"))(MM.match("__h(filepath=__p)", pf.xe_at(i, b["__l"]).elts[0])) for i, c, b in hv)
     rep.check(ok, "C17.R3", pffi.qual, "default metadata is harvested from the same file that is embedded", pffi.loc(), construct="harvest call", message="default metadata is not harvested from file_path with the core.file harvester")
